@@ -1260,7 +1260,7 @@ func stateAnyCommentStart(s *Scanner, c byte) state {
 		// any symbol inline user comment
 		s.annotation = annotationNone
 		s.step = stateInlineComment
-		return scanContinue
+		return s.step(s, c) // a line break right after '#' ends the (empty) comment
 	} else if s.index < s.dataSize && s.data.Byte(s.index) == '#' { // third #
 		s.annotation = annotationNone
 		s.step = stateMultiLineComment
